@@ -508,8 +508,14 @@ func (g *gen) extra(h *tssworld.Hist, ops *[]*tssworld.TxRec) {
 	}
 	// price regimes: for a stretch of blocks every validator reports prices at one end of the uint64 range, so that
 	// aggregated prices (and everything derived from a ratio of consecutive prices) jump between 1 and ~2^64
-	if g.regimeLeft == 0 && r.Chance(1, 12) {
-		g.regime, g.regimeLeft = 1+r.Intn(2), r.Range(3, 8)
+	if g.regimeLeft == 0 && r.Chance(1, 8) {
+		// the two ends alternate, so that an aggregated price near 1 is followed by one near 2^64 and vice versa
+		if g.regime == 0 {
+			g.regime = 1 + r.Intn(2)
+		} else {
+			g.regime = 3 - g.regime
+		}
+		g.regimeLeft = r.Range(3, 8)
 	}
 	if g.regimeLeft > 0 {
 		g.regimeLeft--
